@@ -44,8 +44,8 @@ Section Total.
     destruct (length args <? 3)%nat eqn:Hl.
     - eexists. reflexivity.
     - apply Nat.ltb_ge in Hl.
-      destruct (arg_ok args 1 333) as [a1 H1]; [lia|].
-      destruct (arg_ok args 2 333) as [a2 H2]; [lia|].
+      destruct (arg_ok args 1 395) as [a1 H1]; [lia|].
+      destruct (arg_ok args 2 395) as [a2 H2]; [lia|].
       rewrite H1. cbn [bind]. rewrite H2. cbn [bind]. eexists. reflexivity.
   Qed.
 
@@ -55,7 +55,7 @@ Section Total.
     destruct (length args <? 3)%nat eqn:Hl.
     - eexists. reflexivity.
     - apply Nat.ltb_ge in Hl.
-      destruct (arg_ok args 2 361) as [a2 H2]; [lia|].
+      destruct (arg_ok args 2 417) as [a2 H2]; [lia|].
       rewrite H2. cbn [bind]. destruct (parse_time _); eexists; reflexivity.
   Qed.
 
@@ -68,8 +68,8 @@ Section Total.
     destruct (length args <? 3)%nat eqn:Hl.
     - eexists. reflexivity.
     - apply Nat.ltb_ge in Hl.
-      destruct (arg_ok args 2 384) as [a2 H2]; [lia|].
-      destruct (arg_ok args 1 388) as [a1 H1]; [lia|].
+      destruct (arg_ok args 2 437) as [a2 H2]; [lia|].
+      destruct (arg_ok args 1 441) as [a1 H1]; [lia|].
       rewrite H2. cbn [bind]. destruct a2; try (eexists; reflexivity).
       rewrite H1. cbn [bind].
       destruct (parse_json _) as [doc|]; [|eexists; reflexivity].
@@ -82,8 +82,8 @@ Section Total.
     destruct (length args <? 3)%nat eqn:Hl.
     - eexists. reflexivity.
     - apply Nat.ltb_ge in Hl.
-      destruct (arg_ok args 2 416) as [a2 H2]; [lia|].
-      destruct (arg_ok args 1 420) as [a1 H1]; [lia|].
+      destruct (arg_ok args 2 469) as [a2 H2]; [lia|].
+      destruct (arg_ok args 1 473) as [a1 H1]; [lia|].
       rewrite H2. cbn [bind]. destruct a2; try (eexists; reflexivity).
       rewrite H1. cbn [bind].
       destruct (xml_first _ _) as [| |[t|]|]; eexists; reflexivity.
@@ -101,7 +101,7 @@ Section Total.
     destruct (length args <? 3)%nat eqn:Hl.
     - eexists. reflexivity.
     - apply Nat.ltb_ge in Hl.
-      destruct (arg_ok args 2 600) as [a2 H2]; [lia|].
+      destruct (arg_ok args 2 655) as [a2 H2]; [lia|].
       rewrite H2. cbn [bind]. destruct a2; eexists; reflexivity.
   Qed.
 
